@@ -1,6 +1,612 @@
 package monitors
 
-import "verif/harness/internal/ev"
+import (
+	"bufio"
+	"bytes"
+	"context"
+	"encoding/binary"
+	"flag"
+	"fmt"
+	"log/slog"
+	"math/rand/v2"
+	"net"
+	"net/netip"
+	"os"
+	"os/exec"
+	"strings"
+	"sync"
+	"syscall"
+	"time"
 
-// c08Clients drives the real clients against hostile responders (filled in below).
-func c08Clients(r *ev.Run, e *c08Env) {}
+	"github.com/scionproto/scion/pkg/slayers"
+	"github.com/scionproto/scion/pkg/snet"
+
+	"example.com/scion-time/core/client"
+	"example.com/scion-time/net/csptp"
+	"example.com/scion-time/net/scion"
+	"example.com/scion-time/net/udp"
+
+	"verif/harness/internal/ev"
+	"verif/harness/internal/peer"
+)
+
+// C08, client side: the real clients run in a child process (race build) in an endless loop of
+// measurements against addresses served by the parent, which answers every request with the
+// current hostile response. The child prints one ITER line per completed call; no ITER for
+// 3 x 5 s while the child lives is a hang, a dead child is a crash.
+
+func c08ClientLoop(args []string) {
+	fs := flag.NewFlagSet("c08client", flag.ExitOnError)
+	kind := fs.String("kind", "ip", "ip|ipi|ipnts|scion|scionauth|csptp")
+	srv := fs.String("server", "", "server address (ip:port)")
+	ke := fs.String("ke", "", "NTS-KE address (ip:port)")
+	local := fs.String("local", "127.0.0.1", "local address")
+	_ = fs.Parse(args)
+	registerScriptedRealClock()
+	log := slog.New(slog.DiscardHandler)
+	sa := netip.MustParseAddrPort(*srv)
+	la := netip.MustParseAddr(*local)
+	var call func(ctx context.Context) error
+	switch *kind {
+	case "ip", "ipi":
+		c := &client.IPClient{Log: log, InterleavedMode: *kind == "ipi"}
+		call = func(ctx context.Context) error {
+			_, _, err := client.MeasureClockOffsetIP(ctx, log, c, &net.UDPAddr{IP: la.AsSlice()}, net.UDPAddrFromAddrPort(sa))
+			return err
+		}
+	case "ipnts":
+		c := &client.IPClient{Log: log}
+		c.Auth.Enabled = true
+		c.Auth.NTSKEFetcher = *c20NewFetcher(netip.MustParseAddrPort(*ke))
+		call = func(ctx context.Context) error {
+			_, _, err := client.MeasureClockOffsetIP(ctx, log, c, &net.UDPAddr{IP: la.AsSlice()}, &net.UDPAddr{IP: sa.Addr().AsSlice(), Port: 1})
+			return err
+		}
+	case "scion", "scionauth":
+		c := &client.SCIONClient{Log: log, InterleavedMode: true}
+		if *kind == "scionauth" {
+			c.Auth.Enabled = true
+			c.Auth.DRKeyFetcher = scion.NewFetcher(nil)
+		}
+		pth := handPath(rand.New(rand.NewPCG(1, 2)), c05LIA, c05RIA, sa, 0)
+		call = func(ctx context.Context) error {
+			l := udp.UDPAddr{IA: c05LIA, Host: &net.UDPAddr{IP: la.AsSlice()}}
+			r := udp.UDPAddr{IA: c05RIA, Host: &net.UDPAddr{IP: sa.Addr().AsSlice(), Port: 10123}}
+			_, _, err := client.MeasureClockOffsetSCION(ctx, log, []*client.SCIONClient{c}, l, r, []snet.Path{pth})
+			return err
+		}
+	case "csptp":
+		c := &client.CSPTPClientIP{Log: log}
+		call = func(ctx context.Context) error {
+			_, _, err := c.MeasureClockOffset(ctx, la, sa.Addr())
+			return err
+		}
+	}
+	fmt.Println("READY")
+	for i := 0; ; i++ {
+		ctx, cancel := context.WithTimeout(context.Background(), 30*time.Millisecond)
+		err := call(ctx)
+		cancel()
+		if err != nil {
+			fmt.Printf("ITER %d err\n", i)
+		} else {
+			fmt.Printf("ITER %d ok\n", i)
+		}
+	}
+}
+
+func init() { Legs["c08client"] = c08ClientLoop }
+
+// startChildLeg starts an arbitrary leg like StartTarget does for the listeners.
+func startChildLeg(variant, leg string, args ...string) (*Target, error) {
+	bin := os.Getenv("VERIF_MON_PLAIN")
+	if variant == "race" {
+		bin = os.Getenv("VERIF_MON_RACE")
+	}
+	if bin == "" {
+		bin = os.Args[0]
+	}
+	t := &Target{stderr: &bytes.Buffer{}, logCh: make(chan string, 4096), done: make(chan struct{})}
+	t.cmd = exec.Command(bin, append([]string{"leg", leg}, args...)...)
+	t.cmd.Env = append(os.Environ(), "USE_MOCK_KEYS=true", "GOTRACEBACK=all")
+	t.cmd.Stderr = t.stderr
+	t.cmd.SysProcAttr = &syscall.SysProcAttr{Pdeathsig: syscall.SIGKILL}
+	out, err := t.cmd.StdoutPipe()
+	if err != nil {
+		return nil, err
+	}
+	if err := t.cmd.Start(); err != nil {
+		return nil, err
+	}
+	ready := make(chan bool, 1)
+	go func() {
+		sc := bufio.NewScanner(out)
+		for sc.Scan() {
+			ln := sc.Text()
+			if ln == "READY" {
+				ready <- true
+				continue
+			}
+			select {
+			case t.logCh <- ln:
+			default:
+			}
+		}
+		t.exit = t.cmd.Wait()
+		close(t.done)
+	}()
+	select {
+	case <-ready:
+		return t, nil
+	case <-t.done:
+		return nil, fmt.Errorf("child exited during start-up: %s", tailStr(t.stderr.String(), 1500))
+	case <-time.After(60 * time.Second):
+		t.Kill()
+		return nil, fmt.Errorf("child not ready")
+	}
+}
+
+type c08Resp struct {
+	class string
+	// build returns the datagrams to send in answer to one request (possibly none)
+	build func(req []byte, rng *rand.Rand) [][]byte
+}
+
+// c08DriveClient feeds hostile responses to one kind of client.
+func c08DriveClient(r *ev.Run, name string, args []string, serve func(cur func() *c08Resp, seen func()) (closeFn func(), err error), resps []c08Resp) {
+	var mu sync.Mutex
+	var cur *c08Resp
+	requests := 0
+	closeFn, err := serve(func() *c08Resp { mu.Lock(); defer mu.Unlock(); return cur }, func() { mu.Lock(); requests++; mu.Unlock() })
+	if err != nil {
+		r.Inconclusive(name + ": " + err.Error())
+		return
+	}
+	defer closeFn()
+	var child *Target
+	start := func() bool {
+		var err error
+		child, err = startChildLeg("race", "c08client", args...)
+		if err != nil {
+			r.Inconclusive(name + ": " + err.Error())
+			return false
+		}
+		return true
+	}
+	if !start() {
+		return
+	}
+	defer func() { child.Kill() }()
+	waitIter := func(d time.Duration) bool { return child.WaitLog("ITER", d) }
+	skip := map[string]bool{}
+	for i := range resps {
+		rs := &resps[i]
+		if skip[rs.class] || (r.Only() != "" && r.Only() != rs.class) {
+			continue
+		}
+		mu.Lock()
+		cur = rs
+		before := requests
+		mu.Unlock()
+		child.DrainLogs()
+		okIter := false
+		for a := 0; a < 3 && !okIter; a++ {
+			// the response counts once a request arrived while it was current and a call completed afterwards
+			deadline := time.Now().Add(5 * time.Second)
+			for time.Now().Before(deadline) && child.Alive() {
+				if !waitIter(time.Until(deadline)) {
+					break
+				}
+				mu.Lock()
+				got := requests > before
+				mu.Unlock()
+				if got {
+					okIter = true
+					break
+				}
+			}
+			if !child.Alive() {
+				break
+			}
+		}
+		r.Eval(1)
+		if okIter {
+			r.Class(name + ":survived:" + rs.class)
+			r.Distinct(name + rs.class + fmt.Sprint(i))
+			continue
+		}
+		w := map[string]any{"client": name, "response_class": rs.class}
+		if !child.Alive() {
+			first, frame := child.ExitInfo()
+			w["panic"], w["frame"], w["stderr"] = first, frame, child.Stderr()
+			kind := "panic"
+			if strings.Contains(first, "checkptr") {
+				kind = "checkptr"
+			}
+			r.Violation(name+"|"+kind+":"+c08Sig(frame)+"|"+rs.class, rs.class, w)
+		} else {
+			w["goroutines"] = child.Dump()
+			r.Violation(name+"|hang|"+rs.class, rs.class, w)
+		}
+		skip[rs.class] = true
+		child.Kill()
+		if !start() {
+			return
+		}
+	}
+	r.Class("endpoint:" + name)
+}
+
+// ---- hostile responses
+
+func c08NTPResponses(r *ev.Run, rng *rand.Rand) []c08Resp {
+	var out []c08Resp
+	add := func(class string, f func(req []byte, rng *rand.Rand) [][]byte) { out = append(out, c08Resp{class, f}) }
+	genuine := func(req []byte) peer.NTPFields {
+		f, _ := peer.ParseNTP(req)
+		now := time.Now()
+		return peer.NTPFields{LVM: 0x24, Stratum: 1, Origin: f.Transmit, Receive: peer.ToNTP64(now), Transmit: peer.ToNTP64(now)}
+	}
+	for l := 0; l <= 120; l += r.Pick(3, 1) {
+		l := l
+		add("ntp-response-of-each-length", func(req []byte, rng *rand.Rand) [][]byte {
+			b := append(genuine(req).Bytes(), randBytes(rng, 80)...)
+			return [][]byte{b[:l]}
+		})
+	}
+	for _, l := range []int{1024, 1025, 2048, 9000, 65000} {
+		l := l
+		add("ntp-response-larger-than-buffer", func(req []byte, rng *rand.Rand) [][]byte {
+			return [][]byte{append(genuine(req).Bytes(), randBytes(rng, l-48)...)}
+		})
+	}
+	for v := 0; v < 256; v += r.Pick(5, 1) {
+		v := byte(v)
+		add("ntp-response-first-byte", func(req []byte, rng *rand.Rand) [][]byte { g := genuine(req); g.LVM = v; return [][]byte{g.Bytes()} })
+	}
+	stamps := []uint64{0, 1, 1 << 32, 0x7fffffffffffffff, 0x8000000000000000, 0xffffffffffffffff, 0xfffffffe00000000}
+	for _, rx := range stamps {
+		for _, tx := range stamps {
+			rx, tx := rx, tx
+			add("ntp-response-extreme-timestamps", func(req []byte, rng *rand.Rand) [][]byte {
+				g := genuine(req)
+				g.Receive, g.Transmit = rx, tx
+				return [][]byte{g.Bytes()}
+			})
+			add("ntp-response-extreme-timestamps(interleaved origin)", func(req []byte, rng *rand.Rand) [][]byte {
+				g := genuine(req)
+				f, _ := peer.ParseNTP(req)
+				g.Origin, g.Receive, g.Transmit = f.Receive, rx, tx
+				return [][]byte{g.Bytes()}
+			})
+		}
+	}
+	for k := 0; k < r.Pick(100, 5000); k++ {
+		add("ntp-response-bitflips", func(req []byte, rng *rand.Rand) [][]byte {
+			b := genuine(req).Bytes()
+			for f := 1 + rng.IntN(4); f > 0; f-- {
+				b[rng.IntN(len(b))] ^= 1 << uint(rng.IntN(8))
+			}
+			return [][]byte{b, genuine(req).Bytes()}
+		})
+		add("ntp-response-random", func(req []byte, rng *rand.Rand) [][]byte {
+			return [][]byte{randBytes(rng, rng.IntN(200)), randBytes(rng, 48)}
+		})
+	}
+	add("ntp-response-burst", func(req []byte, rng *rand.Rand) [][]byte {
+		var o [][]byte
+		for i := 0; i < 50; i++ {
+			o = append(o, genuine(req).Bytes())
+		}
+		return o
+	})
+	return out
+}
+
+func c08Clients(r *ev.Run, e *c08Env) {
+	srvIP, cliIP := blockIP(r, 8, 21), blockIP(r, 8, 22)
+	var wg sync.WaitGroup
+	defer wg.Wait()
+	// ---- IP clients (basic and interleaved)
+	for _, kind := range []string{"ip", "ipi"} {
+		s, err := peer.NewNTPServer(netip.AddrPortFrom(srvIP, 0), nil)
+		if err != nil {
+			r.Inconclusive(err.Error())
+			continue
+		}
+		rng := rand.New(rand.NewPCG(uint64(r.Seed()), 7))
+		wg.Add(1)
+		go func() {
+			defer wg.Done()
+			c08DriveClient(r, "ip-client("+kind+")", []string{"-kind", kind, "-server", s.Addr.String(), "-local", cliIP.String()},
+				func(cur func() *c08Resp, seen func()) (func(), error) {
+					s.SetHandler(func(s *peer.NTPServer, dg []byte, from netip.AddrPort, rx time.Time) {
+						c := cur()
+						seen()
+						if c == nil {
+							return
+						}
+						for _, b := range c.build(dg, rng) {
+							s.Send(from, b)
+						}
+					})
+					return s.Close, nil
+				}, c08NTPResponses(r, rng))
+		}()
+	}
+	// ---- SCION clients (plain and authenticated)
+	for _, kind := range []string{"scion", "scionauth"} {
+		s, err := peer.NewNTPServer(netip.AddrPortFrom(srvIP, 0), nil)
+		if err != nil {
+			r.Inconclusive(err.Error())
+			continue
+		}
+		rng := rand.New(rand.NewPCG(uint64(r.Seed()), 8))
+		wg.Add(1)
+		go func() {
+			defer wg.Done()
+			c08DriveClient(r, "scion-client("+kind+")", []string{"-kind", kind, "-server", s.Addr.String(), "-local", cliIP.String()},
+				func(cur func() *c08Resp, seen func()) (func(), error) {
+					s.SetHandler(func(s *peer.NTPServer, dg []byte, from netip.AddrPort, rx time.Time) {
+						ps, err := peer.ParseSCION(dg)
+						if err != nil || !ps.HasUDP {
+							return
+						}
+						c := cur()
+						seen()
+						if c == nil {
+							return
+						}
+						for _, b := range c.build(dg, rng) {
+							s.Send(from, b)
+						}
+					})
+					return s.Close, nil
+				}, c08SCIONResponses(r, rng, srvIP, cliIP, kind == "scionauth"))
+		}()
+	}
+	// ---- CSPTP client
+	{
+		ev319, err1 := peer.NewNTPServer(netip.AddrPortFrom(srvIP, 319), nil)
+		ev320, err2 := peer.NewNTPServer(netip.AddrPortFrom(srvIP, 320), nil)
+		if err1 != nil || err2 != nil {
+			r.Inconclusive("bind CSPTP ports")
+			return
+		}
+		rng := rand.New(rand.NewPCG(uint64(r.Seed()), 9))
+		c08DriveClient(r, "csptp-client", []string{"-kind", "csptp", "-server", netip.AddrPortFrom(srvIP, 319).String(), "-local", cliIP.String()},
+			func(cur func() *c08Resp, seen func()) (func(), error) {
+				h := func(port uint16) func(s *peer.NTPServer, dg []byte, from netip.AddrPort, rx time.Time) {
+					return func(s *peer.NTPServer, dg []byte, from netip.AddrPort, rx time.Time) {
+						c := cur()
+						if port == 320 {
+							seen()
+						}
+						if c == nil {
+							return
+						}
+						// responses are built per request; element 0 is sent from the event port, element 1 from the general port
+						bs := c.build(dg, rng)
+						if port == 319 && len(bs) > 0 && bs[0] != nil {
+							s.Send(from, bs[0])
+						}
+						if port == 320 && len(bs) > 1 && bs[1] != nil {
+							s.Send(from, bs[1])
+						}
+					}
+				}
+				ev319.SetHandler(h(319))
+				ev320.SetHandler(h(320))
+				return func() { ev319.Close(); ev320.Close() }, nil
+			}, c08CSPTPResponses(r, rng))
+	}
+}
+
+func c08SCIONResponses(r *ev.Run, rng *rand.Rand, srvIP, cliIP netip.Addr, auth bool) []c08Resp {
+	var out []c08Resp
+	add := func(class string, f func(req []byte, rng *rand.Rand) [][]byte) { out = append(out, c08Resp{class, f}) }
+	// genuine SCION reply to the request datagram
+	reply := func(reqDg []byte, mod func(p *peer.SCIONPkt, ntp *peer.NTPFields)) []byte {
+		ps, err := peer.ParseSCION(reqDg)
+		if err != nil || !ps.HasUDP {
+			return nil
+		}
+		f, _ := peer.ParseNTP(ps.UDP.Payload)
+		now := time.Now()
+		fl := peer.NTPFields{LVM: 0x24, Stratum: 1, Origin: f.Transmit, Receive: peer.ToNTP64(now), Transmit: peer.ToNTP64(now)}
+		pkt := &peer.SCIONPkt{SrcIA: ps.SCION.DstIA, DstIA: ps.SCION.SrcIA, SrcHost: srvIP, DstHost: cliIP, SrcPort: ps.UDP.DstPort, DstPort: ps.UDP.SrcPort}
+		if rev, err := ps.SCION.Path.Reverse(); err == nil {
+			pkt.Path = rev
+		}
+		if mod != nil {
+			mod(pkt, &fl)
+		}
+		if pkt.Payload == nil {
+			pkt.Payload = fl.Bytes()
+		}
+		b, err := pkt.Serialize()
+		if err != nil {
+			return nil
+		}
+		return b
+	}
+	add("scion-response-genuine", func(req []byte, rng *rand.Rand) [][]byte { return [][]byte{reply(req, nil)} })
+	for l := 0; l <= 140; l += r.Pick(3, 1) {
+		l := l
+		add("scion-response-truncated", func(req []byte, rng *rand.Rand) [][]byte {
+			b := reply(req, nil)
+			if l < len(b) {
+				b = b[:l]
+			}
+			return [][]byte{b}
+		})
+	}
+	for _, off := range []int{4, 5, 8, 9} {
+		for v := 0; v < 256; v += r.Pick(3, 1) {
+			off, v := off, byte(v)
+			add([]string{4: "scion-response-next-header", 5: "scion-response-header-length", 8: "scion-response-path-type", 9: "scion-response-address-type-length"}[off],
+				func(req []byte, rng *rand.Rand) [][]byte {
+					b := append(reply(req, nil), randBytes(rng, 40)...)
+					b[off] = v
+					return [][]byte{b}
+				})
+		}
+	}
+	// host addresses of non-IP types and lengths (consistent packets, built with the layer serializer)
+	for _, t := range []slayers.AddrType{0, 1, 2, 3, 4, 5, 6, 7, 8, 12, 15} {
+		for _, side := range []int{0, 1} {
+			t, side := t, side
+			add("scion-response-non-ip-host-address", func(req []byte, rng *rand.Rand) [][]byte {
+				return [][]byte{reply(req, func(p *peer.SCIONPkt, _ *peer.NTPFields) {
+					raw := randBytes(rng, t.Length())
+					if side == 0 {
+						p.RawSrcType, p.RawSrc = &t, raw
+					} else {
+						p.RawDstType, p.RawDst = &t, raw
+					}
+				})}
+			})
+		}
+	}
+	// timestamp option 253: bytes the client hands to its cmsg parser
+	for _, l := range []int{0, 1, 15, 16, 17, 20, 24, 31, 32, 47, 48, 63, 64, 65, 80, 96, 128} {
+		for variant := 0; variant < 6; variant++ {
+			l, variant := l, variant
+			add("scion-response-timestamp-option", func(req []byte, rng *rand.Rand) [][]byte {
+				d := randBytes(rng, l)
+				if l >= 16 {
+					lens := []uint64{0, 15, 16, 17, uint64(l), uint64(l) + 1, 64, 1 << 40, uint64(l) - 1, uint64(l) - 3}
+					binary.LittleEndian.PutUint64(d[0:], lens[rng.IntN(len(lens))])
+					binary.LittleEndian.PutUint32(d[8:], 1)                                // SOL_SOCKET
+					binary.LittleEndian.PutUint32(d[12:], []uint32{65, 35, 37}[variant%3]) // SO_TIMESTAMPING_NEW, SCM_TIMESTAMPNS, ...
+				}
+				if l >= 64 && variant >= 3 { // a well-formed timestamping cmsg carrying a time far in the past / future
+					binary.LittleEndian.PutUint64(d[0:], 64)
+					for i := 16; i < 64; i++ {
+						d[i] = 0
+					}
+					binary.LittleEndian.PutUint64(d[16:], []uint64{1, 1 << 40, uint64(time.Now().Unix() - 3600)}[variant-3])
+					if variant == 5 { // both the software and the hardware slot set
+						binary.LittleEndian.PutUint64(d[48:], 12345)
+					}
+				}
+				return [][]byte{reply(req, func(p *peer.SCIONPkt, _ *peer.NTPFields) {
+					p.E2E = []*slayers.EndToEndOption{{OptType: 253, OptData: d}}
+				})}
+			})
+		}
+	}
+	for l := 0; l <= 44; l++ {
+		l := l
+		add("scion-response-authenticator-option-length", func(req []byte, rng *rand.Rand) [][]byte {
+			return [][]byte{reply(req, func(p *peer.SCIONPkt, _ *peer.NTPFields) {
+				o := &slayers.EndToEndOption{OptType: slayers.OptTypeAuthenticator, OptData: randBytes(rng, l)}
+				if l >= 5 {
+					o.OptData[0], o.OptData[1], o.OptData[2], o.OptData[3], o.OptData[4] = 0, 2, 0, 123, 0 // server SPI
+				}
+				p.E2E = []*slayers.EndToEndOption{o}
+			})}
+		})
+	}
+	for t := 0; t < 256; t += r.Pick(7, 1) {
+		t := t
+		add("scion-response-scmp", func(req []byte, rng *rand.Rand) [][]byte {
+			return [][]byte{reply(req, func(p *peer.SCIONPkt, _ *peer.NTPFields) {
+				p.SCMP = &slayers.SCMP{TypeCode: slayers.CreateSCMPTypeCode(slayers.SCMPType(t), 0)}
+				p.Payload = randBytes(rng, rng.IntN(40))
+			})}
+		})
+	}
+	for k := 0; k < r.Pick(150, 6000); k++ {
+		add("scion-response-bitflips", func(req []byte, rng *rand.Rand) [][]byte {
+			b := reply(req, nil)
+			for f := 1 + rng.IntN(3); f > 0 && len(b) > 0; f-- {
+				b[rng.IntN(len(b))] ^= 1 << uint(rng.IntN(8))
+			}
+			return [][]byte{b, reply(req, nil)}
+		})
+	}
+	stamps := []uint64{0, 1, 0x7fffffffffffffff, 0x8000000000000000, 0xffffffffffffffff}
+	for _, rx := range stamps {
+		for _, tx := range stamps {
+			rx, tx := rx, tx
+			add("scion-response-extreme-timestamps", func(req []byte, rng *rand.Rand) [][]byte {
+				return [][]byte{reply(req, func(_ *peer.SCIONPkt, f *peer.NTPFields) { f.Receive, f.Transmit = rx, tx })}
+			})
+		}
+	}
+	for k := 0; k < r.Pick(60, 3000); k++ {
+		add("scion-response-random", func(req []byte, rng *rand.Rand) [][]byte { return [][]byte{randBytes(rng, rng.IntN(200))} })
+	}
+	_ = auth
+	return out
+}
+
+func c08CSPTPResponses(r *ev.Run, rng *rand.Rand) []c08Resp {
+	var out []c08Resp
+	add := func(class string, f func(req []byte, rng *rand.Rand) [][]byte) { out = append(out, c08Resp{class, f}) }
+	msg := func(req []byte, typ uint8, l int) []byte {
+		b := make([]byte, max(l, 0))
+		if len(req) >= 44 && l >= 44 {
+			var m csptp.Message
+			_ = csptp.DecodeMessage(&m, req[:44])
+			m.SdoIDMessageType, m.MessageLength = typ, uint16(l)
+			csptp.EncodeMessage(b[:44], &m)
+		}
+		return b
+	}
+	genuineFU := func(req []byte, flags uint32) []byte {
+		tlv := csptp.ResponseTLV{Type: csptp.TLVTypeOrganizationExtension, FlagField: flags,
+			OrganizationID:      [3]uint8{csptp.OrganizationIDMeinberg0, csptp.OrganizationIDMeinberg1, csptp.OrganizationIDMeinberg2},
+			OrganizationSubType: [3]uint8{csptp.OrganizationSubTypeResponse0, csptp.OrganizationSubTypeResponse1, csptp.OrganizationSubTypeResponse2}}
+		n := 44 + csptp.EncodedResponseTLVLength(&tlv)
+		b := msg(req, csptp.MessageTypeFollowUp, n)
+		tlv.Length = uint16(n - 44)
+		csptp.EncodeResponseTLV(b[44:], &tlv)
+		return b
+	}
+	add("csptp-response-genuine", func(req []byte, rng *rand.Rand) [][]byte { return [][]byte{msg(req, 0, 44), genuineFU(req, 1)} })
+	for l := 0; l <= 110; l += r.Pick(2, 1) {
+		l := l
+		add("csptp-response-of-each-length", func(req []byte, rng *rand.Rand) [][]byte {
+			a := append(msg(req, 0, 44), randBytes(rng, 80)...)[:l]
+			b := append(genuineFU(req, 1), randBytes(rng, 40)...)[:l]
+			return [][]byte{a, b}
+		})
+		add("csptp-response-random-of-each-length", func(req []byte, rng *rand.Rand) [][]byte {
+			return [][]byte{randBytes(rng, l), randBytes(rng, l)}
+		})
+	}
+	for _, ml := range []int{0, 1, 43, 44, 45, 80, 97, 98, 99, 0xffff} {
+		for _, l := range []int{44, 80, 98} {
+			ml, l := ml, l
+			add("csptp-response-message-length", func(req []byte, rng *rand.Rand) [][]byte {
+				a, b := msg(req, 0, l), msg(req, 8, l)
+				binary.BigEndian.PutUint16(a[2:], uint16(ml))
+				binary.BigEndian.PutUint16(b[2:], uint16(ml))
+				for i := 44; i < l; i++ {
+					b[i] = byte(rng.IntN(256))
+				}
+				return [][]byte{a, b}
+			})
+		}
+	}
+	for _, fl := range []uint32{0, 1, 2, 3, 0xffffffff} {
+		fl := fl
+		add("csptp-response-tlv-flags", func(req []byte, rng *rand.Rand) [][]byte {
+			b := genuineFU(req, fl)
+			return [][]byte{msg(req, 0, 44), b, b[:min(len(b), 80)]}
+		})
+	}
+	for k := 0; k < r.Pick(60, 3000); k++ {
+		add("csptp-response-bitflips", func(req []byte, rng *rand.Rand) [][]byte {
+			a, b := msg(req, 0, 44), genuineFU(req, 1)
+			for f := 1 + rng.IntN(3); f > 0; f-- {
+				a[rng.IntN(len(a))] ^= 1 << uint(rng.IntN(8))
+				b[rng.IntN(len(b))] ^= 1 << uint(rng.IntN(8))
+			}
+			return [][]byte{a, b}
+		})
+	}
+	return out
+}
